@@ -552,4 +552,52 @@ example : ccittfaxdecode (some (-1)) (some ((1 : Nat) : Int)) false true
       = .ok (T6.packImage true [[true], [false], [false], [true]]) :=
   image_rt 1 (by omega) _ (by decide) _ false true true
 
+/-- **Unassigned code words (damaged data, any table).**  Whatever the parser is waiting for — a mode
+code, a white or black run length, an uncompressed-mode symbol — bits that lead to a slot of the
+current table that no `BitParser.add` filled end in `InvalidData`, whatever follows. -/
+theorem unassigned_code_rejected (st : St) (code : List Bool) (hne : code ≠ [])
+    (h : Trie.follow st.node code = some .empty) (pos : Nat) (rest : List Bool) :
+    feedFlat st pos 0 (code ++ rest) = .error .invalidData :=
+  feed_follow_empty code st pos rest hne h
+
+/-- **EndOfLine.**  T.6 data carries no EOL codes and `ccittfaxdecode` never reads `/EndOfLine`: after
+any number of correctly coded rows, ONE end-of-line code `000000000001` that is not immediately followed
+by a second one (k < 11 zeros and a one, or twelve zeros) raises `InvalidData`; two of them are EOFB
+(`eofb_ends_decoding`). -/
+theorem eol_rejected (w : Nat) (hw : 1 ≤ w) (rows : List (List Bool))
+    (hrows : ∀ r ∈ rows, r.length = w) (chs : List (List T6.Choice)) (align blackIs1 : Bool) (k : Nat)
+    (hk : k < 12) (data : List UInt8) (rest : List Bool)
+    (hd : data.flatMap bitsOfByte =
+      T6.encodeRows align (List.replicate w true) rows chs ++ (codeEOL ++ eolDeviation k) ++ rest) :
+    ccittfaxdecode (some (-1)) (some (w : Int)) align blackIs1 data = .error .invalidData := by
+  have hr0 : Ready w align blackIs1 (List.replicate w true) [] (initSt w align blackIs1) :=
+    ⟨rfl, rfl, rfl, rfl, rfl, rfl, rfl, rfl, rfl, rfl⟩
+  obtain ⟨st1, ref1, hr1, _, hf1⟩ := feed_rows (al := align) (rv := blackIs1) hw rows chs (List.replicate w true) []
+    (initSt w align blackIs1) 0 hrows (by simp) hr0 (by intro _; rfl)
+  have hc : ¬ ((w : Int) ≤ 0) := by omega
+  have hne : codeEOL ++ eolDeviation k ≠ [] := by simp [codeEOL]
+  simp only [ccittfaxdecode, ne_eq, not_true_eq_false, if_false, Option.getD_some, hc, Int.toNat_natCast]
+  rw [feedBytes_flat _ _ 0 rfl, hd, List.append_assoc, hf1,
+    feed_follow_empty _ st1 _ rest hne (by rw [hr1.node]; exact eol_deviation_ok ⟨k, hk⟩)]
+  rfl
+
+example : T6.codeEOFB = codeEOL ++ codeEOL := codeEOFB_eq
+
+/-- One row of width 3, then EOL + `1`: InvalidData; the unassigned white run-length code `00000000`
+right after an H code: InvalidData as well (`unassigned_code_rejected` in state `_parse_horiz1`). -/
+example : (ccittfaxdecode (some (-1)) (some 3) false false
+    (packBits (T6.padTo8 (T6.encodeRows false [true, true, true] [[true, false, true]] [[.horiz]] ++
+      (codeEOL ++ eolDeviation 0) ++ [false, true])))).toOption = none := by decide +kernel
+
+example : ccittfaxdecode (some (-1)) (some ((3 : Nat) : Int)) false false
+    (packBits (T6.padTo8 (T6.encodeRows false [true, true, true] [[true, false, true]] [[.horiz]] ++
+      (codeEOL ++ eolDeviation 0) ++ [false, true]))) = .error .invalidData := by
+  refine eol_rejected 3 (by omega) [[true, false, true]] (by decide) [[.horiz]] false false 0 (by omega) _
+    ([false, true] ++ List.replicate 4 false) ?_
+  decide +kernel
+
+example : feedFlat { initSt 3 false false with acc := .horiz1, node := runTrie true } 3 0
+    (List.replicate 8 false ++ [true, true]) = .error .invalidData :=
+  unassigned_code_rejected _ _ (by decide) (by decide +kernel) 3 _
+
 end PdfVerif.Props.C19
